@@ -60,6 +60,31 @@ def _isnan(x):
     return isinstance(x, (float, np.floating)) and x != x
 
 
+class _Callable:
+    """user function handed to the library (e.g. a binarizer): picklable / deep-copyable inside one interpreter, like a
+    module-level function"""
+
+    def __init__(self, fn):
+        self._fn = fn
+
+    def __call__(self, *args):
+        return self._fn(*args)
+
+    def __deepcopy__(self, memo):
+        return self
+
+    def __copy__(self):
+        return self
+
+    def __reduce__(self):
+        core.REG.append(self)
+        return (_unpickle_callable, (len(core.REG) - 1,))
+
+
+def _unpickle_callable(i):
+    return core.REG[i]
+
+
 class SymEnv:
     sym = True
 
@@ -146,7 +171,7 @@ class SymEnv:
                 self.ctx.fact(z3.And(out.e >= lo, out.e <= hi))
             calls.append((ts, out.e))
             return out
-        return call
+        return _Callable(call)
 
     # ---- math on either kind of number
     def sqrt(self, x):
@@ -343,7 +368,7 @@ class ConcEnv:
                 if all(abs(x - y) <= 1e-9 * (1 + abs(x)) for x, y in zip(k, key)):
                     return v
             return float(lo)
-        return call
+        return _Callable(call)
 
     def sqrt(self, x):
         return math.sqrt(x)
